@@ -135,9 +135,11 @@ def trace_of(block, K, v, assume):
 
 
 def same_trace(ob, A, before, after, assume, v, site):
-    goals = []
     for pa in before:
         for pb in after:
+            if (len(before) > 1 or len(after) > 1) and not equiv._compatible(assume, pa, pb):
+                continue        # the two runs took contradictory decisions (ROM hole vs. no hole ...): no common input
+            goals = []
             if pa.exc or pb.exc:
                 ob.fact('same-exception-behaviour', type(pa.exc) is type(pb.exc), site + ':exception')
                 continue
@@ -270,11 +272,13 @@ def run_case(case, ob, tier):
         with sym_env([B]):
             rb = run_sim(B, K, v, reg_init='reset', mem_init='sym', track='io', assumptions=assume, memmap_key=mk,
                          inputs_override=lambda t: pair.b_inputs_sym(v, t))
-        goals = []
         for pa in before:
             for pb in rb:
                 if pa.exc or pb.exc:
                     continue
+                if (len(before) > 1 or len(rb) > 1) and not equiv._compatible(assume, pa, pb):
+                    continue
+                goals = []
                 for aname in sorted(pair.out_map):
                     aw_bits = len(before[0].trace[aname]) and None
                     for t in range(K):
